@@ -226,7 +226,12 @@ def run(ctx: C.Ctx):
                 'comma / k=v shorthand and JSON form of list, set, tuples, dict key / value, NamedTuple, TypedDict, nested dataclass, mixed nesting; '
                 'non-string JSON scalars inside the JSON forms): real EnvWizard class per case (os.environ set, _reload=True, restored) vs the '
                 'documented conversion, vs the bare position and vs the Lean EnvLoader model; as_list / as_dict / split / numeric test on '
-                'directed + random strings over a separator alphabet vs the Lean functions.')
+                'directed + random strings over a separator alphabet vs the Lean functions. '
+                'HISTORIES (c04_hist.py): 2–5 documents through the same class on each engine, random container shape (variadic tuple, list, '
+                'deque, dict value, Optional, nested dataclass, fixed pair; depth ≤ 3) with growing / shrinking / random element counts between and '
+                'inside documents: every container holds exactly its input elements, each converted as documented; each load vs the (stateless) '
+                'Lean model. NEIGHBOURING FIELDS: 2–4 fields, Annotated[.., Pattern(fmt)] positions (own or shared Pattern object) before / after '
+                'plain date / time / datetime positions, inputs in a neighbour\'s format: outcome of the class = outcome of each field loaded alone.')
     reqs, pend = [], []
     for i, (tk, v, ck) in enumerate(cases(ctx)):
         if ctx.done(i):
